@@ -3297,7 +3297,10 @@ fn apply_relocation<
         value = thunked_value;
     };
 
-    rel_info.write_to_buffer(value, &mut out[offset_in_section..])?;
+    let out = out
+        .get_mut(offset_in_section..)
+        .context("Relocation outside of bounds of section")?;
+    rel_info.write_to_buffer(value, out)?;
 
     Ok(next_modifier)
 }
